@@ -103,8 +103,13 @@ class Wal:
 
     def run_file(self, filename):
         '''Executes a WAL program from a file'''
+        # evaluate form by form, like the wal command does, so that macros
+        # defined in one form are known when the next one is expanded
         with open(filename, 'r', encoding='utf-8') as fin:
-            return self.eval(WList([Op.DO, *read_wal_sexprs(fin.read())]))
+            res = None
+            for sexpr in read_wal_sexprs(fin.read(), filename):
+                res = self.eval(sexpr)
+            return res
 
 
     def register_operator(self, name, function):
